@@ -171,7 +171,7 @@ class C12(Prop):
         rng = ctx.rng(stream)
         cases = []
         cap = ctx.scale(150, 300)
-        ncases = ctx.scale(1500, 12000) * budget_scale
+        ncases = ctx.scale(800, 8000) * budget_scale
         shapes = []
         if ctx.thorough() and stream == "main":
             for n in range(2, 6):
